@@ -42,6 +42,13 @@ func (ic *InjCase) Query(wantModel bool, extra ...string) (smt.Verdict, map[stri
 		vars = ic.Enc.ModelVars()
 	}
 	v, m := ic.Sol.CheckAssuming(extra, vars)
+	if v == smt.Sat && wantModel {
+		// prefer a model the replay can realise without luck: every select it
+		// executes has a single enabled branch
+		if v2, m2 := ic.Sol.CheckAssuming(append(append([]string{}, extra...), ic.Enc.DeterministicSelects()), vars); v2 == smt.Sat {
+			m = m2
+		}
+	}
 	// cross-solver diff (thorough tier): a seeded sample of the queries is
 	// decided again by cvc5 and z3 5.1.0 on the full text; a disagreement is a
 	// broken encoding, never a verdict.
